@@ -31,7 +31,7 @@ CONSTANTS RowVals, ColVals,      \* row / column counts to enumerate
 
 AllRoles     == {"none", "presentation", "grid", "treegrid", "landmark", "other"}
 AllDescRoles == {"none", "tableRole", "landmark"}
-AllHeaders   == {"none", "caption", "thead", "tfoot", "colgroup", "col", "th"}
+AllHeaders   == {"none", "caption", "thead", "tfoot", "colgroup", "col", "th", "rowth"}
 AllCellAttrs == {"none", "abbr", "headers", "scope", "loneAbbr"}
 AllObjects   == {"none", "embed", "object", "applet", "iframe"}
 ASSUME /\ Roles \subseteq AllRoles /\ DescRoles \subseteq AllDescRoles /\ Headers \subseteq AllHeaders
@@ -43,7 +43,9 @@ Features == [editable : BOOLEAN, role : Roles, descRole : DescRoles, datatable0 
 
 (***************************************************************************)
 (* The abstract table generated for f.  Row r is a sequence of cell kinds. *)
-(* header = "th" turns the first row into th cells; short drops one cell   *)
+(* header = "th" turns the first row into th cells; header = "rowth" puts  *)
+(* a th cell in front of every row (key / value tables - rows and columns  *)
+(* are counted in td cells, as the code does); short drops one cell        *)
 (* from the last row; a nested table sits in the first td cell and brings  *)
 (* one tr and one td of its own.                                           *)
 (***************************************************************************)
@@ -51,7 +53,7 @@ ShortApplies(f) == f.short /\ f.cols > 1 /\ f.rows >= 3   \* another full row of
 RowOf(f, r) ==
     LET n == IF ShortApplies(f) /\ r = f.rows THEN f.cols - 1 ELSE f.cols
         k == IF f.header = "th" /\ r = 1 THEN "th" ELSE "td"
-    IN  [c \in 1..n |-> k]
+    IN  (IF f.header = "rowth" THEN <<"th">> ELSE << >>) \o [c \in 1..n |-> k]
 Build(f) == [r \in 1..f.rows |-> RowOf(f, r)]
 
 TdIn(row) == Cardinality({c \in 1..Len(row) : row[c] = "td"})
@@ -102,7 +104,7 @@ Documented(f) ==
     ELSE IF f.datatable0 THEN "layout"
     ELSE IF HasTd(f) /\ f.nested THEN "layout"
     ELSE IF f.rows <= 1 \/ f.cols <= 1 THEN "layout"                         \* at most one row or one column
-    ELSE IF f.header \in {"caption", "thead", "tfoot", "colgroup", "col", "th"} THEN "data"
+    ELSE IF f.header \in {"caption", "thead", "tfoot", "colgroup", "col", "th", "rowth"} THEN "data"
     ELSE IF f.cellAttr \in {"abbr", "headers", "scope", "loneAbbr"} THEN "data"
     ELSE IF f.summary THEN "data"
     ELSE IF f.cols >= 5 THEN "data"
